@@ -510,7 +510,7 @@ def in_split_recombine(lit, kind):
         if not in_tier(lit, tier): return
         q = lit_q(lit)
         S1, S2, S3 = secret_lists(q, tier)
-        cap = T(tier, 300, 9000)
+        cap = T(tier, 300, 5000)
         for t, m in tm_pairs(q):
             R, full = rands_for(q, t, tier, T(tier, 32, 300), 13 * t + m)
             xl = tuple(xpoints(q, m))
